@@ -179,6 +179,41 @@ def case_roundtrip(ctx, rng, idx):
                 "multiple" if n % used == 0 else "ragged", reconf)
     if idx % 50 == 0:
         ctx.sample("roundtrip", {**tag, "x_head": x[:3]})
+    # the SAME object with fewer used subcarriers (same fft): bins that carried
+    # data a moment ago are guard band now and must be empty; same number of
+    # OFDM symbols as before
+    if used >= 4 and idx % 3 == 0:
+        used2 = 2 * int(rng.integers(1, used // 2))
+        okc, _ = ctx.call("round-trip", o.set_parameters, fft, cp, used2, cls="shrink-used",
+                          detail={**tag, "used2": used2})
+        if not okc:
+            return
+        n2 = used2 * nsym - int(rng.integers(0, used2))
+        x2 = rand_c(rng, n2) * 10.0 ** rng.uniform(-2, 2)
+        okc, y2 = ctx.call("round-trip", o.modulate, x2, cls="modulate-after-shrink", detail=tag)
+        if not okc:
+            return
+        y2 = np.asarray(y2)
+        tag2 = {**tag, "used_after_shrink": used2, "n2": n2}
+        if y2.shape != (nsym * (fft + cp),):
+            ctx.ev("emitted-length", False, cls="length-after-shrink",
+                   detail={**tag2, "got": y2.shape})
+            return
+        spec2 = dft_rows(y2.reshape(nsym, fft + cp)[:, cp:])
+        unused2 = np.array(sorted(set(range(fft)) - expected_used_bins(fft, used2)))
+        leak2 = float(np.max(np.abs(spec2[:, unused2])))
+        ctx.within("spectral-mask", leak2,
+                   64 * EPS * fft * (float(np.max(np.abs(spec2))) + 1e-300),
+                   "dc-and-guards-empty:after-shrink", {**tag2, "leak": leak2})
+        okc, back3 = ctx.call("round-trip", o.demodulate, y2.copy(), cls="demodulate-after-shrink",
+                              detail=tag2)
+        if okc:
+            back3 = np.asarray(back3)
+            xm2 = float(np.max(np.abs(x2))) + 1e-300
+            ctx.within("round-trip", float(np.max(np.abs(back3[:n2] - x2))) if back3.size >= n2
+                       else float("inf"),
+                       64 * EPS * max(4, math.log2(fft) * 4) * xm2 * math.sqrt(fft),
+                       "symbols:after-shrink", tag2)
 
 
 def case_reject(ctx, rng, idx):
